@@ -922,6 +922,7 @@ class Interp:
 
     def e_JoinedStr(self, e, env):
         parts = []
+        symbolic = False
         for p in e.values:
             if isinstance(p, ast.Constant):
                 parts.append(p.value)
@@ -930,16 +931,26 @@ class Interp:
                 if isinstance(v, bool) or v is None or isinstance(v, (int, str)):
                     if p.format_spec is not None:
                         spec = self.e_JoinedStr(p.format_spec, env)
-                        if isinstance(spec, OpaqueStr):
+                        if not isinstance(spec, str):
                             return OpaqueStr()
                         parts.append(format(v, spec))
                     elif p.conversion == 114:
                         parts.append(repr(v))
                     else:
                         parts.append(str(v))
+                elif isinstance(v, Sym) and v.sort == "str" and p.format_spec is None and p.conversion == -1:
+                    parts.append(v)
+                    symbolic = True
+                elif isinstance(v, Sym) and v.sort == "int" and p.format_spec is None and p.conversion == -1:
+                    # str(n) of a (non-negative) integer; negative ones get an opaque text
+                    parts.append(Sym(z3.IntToStr(v.t), "str"))
+                    symbolic = True
                 else:
                     return OpaqueStr()
-        return "".join(parts)
+        if not symbolic:
+            return "".join(parts)
+        ts = [term(x, "str") for x in parts if not (isinstance(x, str) and x == "")]
+        return Sym(z3.Concat(*ts) if len(ts) > 1 else ts[0], "str")
 
     def e_Lambda(self, e, env):
         q = env.vars.get("__qualname__") or (env.module.name if env.module else "?")
@@ -1118,6 +1129,8 @@ class Interp:
                 return a + b
             if isinstance(a, (str, OpaqueStr)) and isinstance(b, (str, OpaqueStr)):
                 return OpaqueStr()
+            if (isinstance(a, str) or (isinstance(a, Sym) and a.sort == "str")) and (isinstance(b, str) or (isinstance(b, Sym) and b.sort == "str")):
+                return Sym(z3.Concat(term(a, "str"), term(b, "str")), "str")
             if isinstance(a, SeqV) and isinstance(b, (list, tuple)):
                 cur = a
                 for x in b:
